@@ -62,6 +62,10 @@ FLOORS = {"quick": {"evaluations": 2500, "distinct_nontrivial": 1050,
           "thorough": {"evaluations": 45000, "distinct_nontrivial": 18000,
                        "counters": {"compared": 46000, "lazy_meta_checked": 46000, "blocks_checked": 4000, "retstep_compared": 1600},
                        "sets": {"chunk_spec_kinds": 36}, "max_skipped_fraction": 0.15}}
+# sibling facet (vf/mon/siblings.py): ~45 % of the smallest count of the five quick seeds on the unchanged tree; thorough =
+# quick floor x (thorough / quick stream size) x 0.6.  A run in which the facet never executed is INCONCLUSIVE.
+FLOORS["quick"]["counters"].update({"siblings_built": 2300, "siblings_computed_together": 345, "siblings_with_different_values": 310})
+FLOORS["thorough"]["counters"].update({"siblings_built": 25000, "siblings_computed_together": 3700, "siblings_with_different_values": 3300})
 EXHAUSTIVE_SPACE = ("arange(n), n<=6 x all explicit chunkings and int chunk sizes 1..n+1; eye(n), n<=6 x k in {-1,0,1} x int "
                     "chunk sizes 1..n+1; tri(n), n<=5 x all pairs of explicit chunkings and int chunk sizes 1..n+1")
 CLAIM = ("Every generated creation call was executed by the real dask.array and compared with the NumPy routine on the "
